@@ -111,6 +111,9 @@ def hex2 (n : Nat) : String :=
 def bytesHex (m : Segs) (seg : Nat) (b n : Nat) : String :=
   String.join ((List.range n).map (fun k => hex2 (byteAt m seg (b + k))))
 
+/-- rendering shows at most `cap` elements / fields of any one object (both sides of the comparison do) -/
+def cap : Nat := 64
+
 /-- the value tree denoted by the pointer at `(seg, w)`, as a canonical string; `fuel` bounds depth -/
 def renderPtr : Nat → Segs → Nat → Nat → String
   | 0, m, seg, w => (match decode1 m seg w with | some .null => "N" | _ => "E")   -- depth budget exhausted
@@ -120,20 +123,30 @@ def renderPtr : Nat → Segs → Nat → Nat → String
     | some .null => "N"
     | some (.cap i) => "C" ++ toString i
     | some (.struct sg s dw pc) =>
-      "S{" ++ bytesHex m sg (8 * s) (8 * dw) ++ "|" ++
-        String.join ((List.range pc).map (fun i => renderPtr fuel m sg (s + dw + i))) ++ "}"
+      "S{" ++ bytesHex m sg (8 * s) (8 * min dw cap) ++ "|" ++
+        String.join ((List.range (min pc cap)).map (fun i => renderPtr fuel m sg (s + dw + i))) ++ "}"
     | some (.list sg s ek n dw pc) =>
       "L" ++ toString ek ++ "," ++ toString n ++ "[" ++
       (if ek = 7 then
-        String.join ((List.range n).map (fun i =>
+        String.join ((List.range (min n cap)).map (fun i =>
           let e := s + i * (dw + pc)
-          "S{" ++ bytesHex m sg (8 * e) (8 * dw) ++ "|" ++
+          "S{" ++ bytesHex m sg (8 * e) (8 * min dw cap) ++ "|" ++
             -- a struct-list element spends one more level of the reader's depth budget
-            String.join ((List.range pc).map (fun j => renderPtr (fuel - 1) m sg (e + dw + j))) ++ "}"))
-      else if ek = 6 then String.join ((List.range n).map (fun i => renderPtr fuel m sg (s + i)))
-      else if ek = 1 then String.join ((List.range n).map (fun i =>
+            String.join ((List.range (min pc cap)).map (fun j => renderPtr (fuel - 1) m sg (e + dw + j))) ++ "}"))
+      else if ek = 6 then String.join ((List.range (min n cap)).map (fun i => renderPtr fuel m sg (s + i)))
+      else if ek = 1 then String.join ((List.range (min n cap)).map (fun i =>
           if (byteAt m sg (8 * s + i / 8)) / 2 ^ (i % 8) % 2 = 1 then "1" else "0"))
-      else bytesHex m sg (8 * s) (n * elemBytes ek)) ++ "]"
+      else bytesHex m sg (8 * s) (min n cap * elemBytes ek)) ++ "]" ++
+      -- list upgrade rules, on the first element: a struct list read as a list of pointers / of 64-bit
+      -- values shows each element's first pointer / first data word (0 if it has none); a primitive list
+      -- read as a struct list shows structs whose sole field is the element
+      (if n = 0 then "" else
+       if ek = 7 then
+         "^" ++ (if pc = 0 then "E" else renderPtr fuel m sg (s + dw)) ++ "," ++
+           (if dw = 0 then "0" else bytesHex m sg (8 * s) 8)
+       else if 2 ≤ ek ∧ ek ≤ 5 then
+         "^S{" ++ bytesHex m sg (8 * s) (elemBytes ek) ++ "|}" ++ (if ek = 5 then bytesHex m sg (8 * s) 8 else "0")
+       else "")
 
 def decodeTree (m : Segs) : String := renderPtr 64 m 0 0
 
